@@ -41,12 +41,12 @@ def _c_int(tok, env):
     if m:
         return int(m.group(1), 0)
     if tok in env:
-        return env[tok]
+        return env[tok] if isinstance(env[tok], int) else None
     # simple binary expressions  A + B, A * B, A | B, A << B
     m = re.fullmatch(r"(.+?)\s*(\+|-|\*|\||<<)\s*([^+\-*|<]+)", tok)
     if m:
         a, op, b = _c_int(m.group(1), env), m.group(2), _c_int(m.group(3), env)
-        if a is None or b is None:
+        if not isinstance(a, int) or not isinstance(b, int):
             return None
         return {"+": a + b, "-": a - b, "*": a * b, "|": a | b, "<<": a << b}[op]
     m = re.fullmatch(r"sizeof\((\w+)\)", tok)
